@@ -1,0 +1,58 @@
+//go:build verif
+
+package dbft
+
+import "time"
+
+// VerifState is a read-only snapshot of unexported DBFT state used by the
+// external verification harness. It is compiled only with the verif build tag.
+type VerifState struct {
+	BlockProcessed     bool
+	PreBlockProcessed  bool
+	TxSubscriptionOn   bool
+	Recovering         bool
+	LastBlockTimestamp uint64
+	LastBlockTime      time.Time
+	LastBlockIndex     uint32
+	LastBlockView      byte
+	TimePerBlock       time.Duration
+	MaxTimePerBlock    time.Duration
+	PrepareSentTime    time.Time
+	RTTAvg             time.Duration
+}
+
+// VerifFlags returns a snapshot of unexported state (verif build tag only).
+func (d *DBFT[H]) VerifFlags() VerifState {
+	return VerifState{
+		BlockProcessed:     d.blockProcessed,
+		PreBlockProcessed:  d.preBlockProcessed,
+		TxSubscriptionOn:   d.txSubscriptionOn,
+		Recovering:         d.recovering,
+		LastBlockTimestamp: d.lastBlockTimestamp,
+		LastBlockTime:      d.lastBlockTime,
+		LastBlockIndex:     d.lastBlockIndex,
+		LastBlockView:      d.lastBlockView,
+		TimePerBlock:       d.timePerBlock,
+		MaxTimePerBlock:    d.maxTimePerBlock,
+		PrepareSentTime:    d.prepareSentTime,
+		RTTAvg:             d.rttEstimates.avg,
+	}
+}
+
+// VerifCache returns, for every height held in the future-message cache, the
+// cached payloads per inbox (0: prepare, 1: change views, 2: pre-commits,
+// 3: commits) keyed by validator index (verif build tag only, read-only).
+func (d *DBFT[H]) VerifCache() map[uint32][4]map[uint16]ConsensusPayload[H] {
+	res := make(map[uint32][4]map[uint16]ConsensusPayload[H], len(d.cache.mail))
+	for h, box := range d.cache.mail {
+		var e [4]map[uint16]ConsensusPayload[H]
+		for k, src := range []map[uint16]ConsensusPayload[H]{box.prepare, box.chViews, box.preCommit, box.commit} {
+			e[k] = make(map[uint16]ConsensusPayload[H], len(src))
+			for i, p := range src {
+				e[k][i] = p
+			}
+		}
+		res[h] = e
+	}
+	return res
+}
